@@ -24,6 +24,13 @@ def geom_replay(ctx, spec, f):
     return {"reproduced": None, "detail": "decode-instance counterexample: chroma window not recoverable by name; see failed check"}
 
 
+def enc_replay_odd(ctx, spec, f):
+    # natively the real Plane::new pads rows to 64 bytes: the overflow needs a width of 64k+1 (4:2:2) or an odd height
+    w, h, sx, sy = {"3x1_ss10": (129, 1, 1, 0), "1x3_ss01": (1, 3, 0, 1), "3x3_ss11": (3, 3, 1, 1)}[spec["odd"].split("odd_dims_")[1]]
+    r = native.replay_native(ctx, "oddenc", [w, h, sx, sy], abort_is_violation=False)
+    return r
+
+
 def plan(tier, seed):
     p = Plan()
     thorough = tier == "thorough"
@@ -58,6 +65,15 @@ def plan(tier, seed):
                        geom=dict(kind="decode")))
     txt += geom.EPILOGUE
     p.modules.append(("src/yuv_rgb.rs", txt))
+    # 3. encode side: no out-of-bounds write, also for dimensions the conversion rejects by panicking (F9 was found here)
+    from props import C11 as _c11
+    p.stubbing = True
+    p.modules.append(("src/yuv_rgb.rs", _c11.ENC_PRELUDE + _c11.ODD.replace("k_c11_enc_odd_dims", "k_c07_enc_odd_dims") + "}\n"))
+    for n in ("k_c07_enc_odd_dims_3x1_ss10", "k_c07_enc_odd_dims_1x3_ss01", "k_c07_enc_odd_dims_3x3_ss11"):
+        hs.append(dict(name=n, family="encode-ub", timeout=1200, mem_gb=16, covers=[], replay=enc_replay_odd, odd=n,
+                       only_classes=["pointer_dereference", "safety_check", "assume", "arithmetic_overflow", "precondition_instance", "array_bounds"],
+                       obligation="RGB->YUV for dimensions that are not a multiple of the subsampling: whatever the call does (it panics: finding F6 under C11), no plane write may leave its buffer",
+                       sym="concrete odd dimensions 3x1 / 1x3 / 3x3 with subsampling (1,0) / (0,1) / (1,1); output planes are unpadded stand-ins for Plane::new, so one sample past the row is outside the buffer"))
     # 4. unchecked float->int, all bit patterns
     t = total.PRELUDE
     for idx in total.TC_SUP:
@@ -87,7 +103,7 @@ def plan(tier, seed):
                 "float clause: all 2^32 bit patterns per component, every supported curve, both directions"]
     p.outside = ["planes larger than the stated windows and 64-byte stride alignment of Plane::new (from_slice buffers are used instead)",
                  "frames whose public PlaneConfig violates v_frame's own representation invariant (width beyond stride etc.)",
-                 "encode side (ypbpr_to_ycbcr) index safety is decided under C11/C13 on 1x1..2x2 outputs"]
+                 "encode side (ypbpr_to_ycbcr) index safety on well-formed dimensions is decided by C11's encode harnesses (pointer checks on the same code) and C13"]
     p.assumptions = ["representation invariant of v_frame::Plane: xorigin+width <= stride, yorigin+height <= alloc_height, len == stride*alloc_height",
                      "Kani's pointer_dereference / 'Rust intrinsic assumption' (ub_checks) / float_to_int_unchecked checks stand for UB"]
     return p
